@@ -133,10 +133,9 @@ Lemma split_ws_tok : forall t c s, tok_ok t = true -> is_space c = true ->
   split_ws (t ++ String c s) = t :: split_ws s.
 Proof.
   intros t c s Ht Hc. unfold tok_ok in Ht. apply andb_true_iff in Ht as [Hne Hns].
-  unfold split_ws at 1. rewrite (toks_tok_app t _ Hns).
-  pose proof (split_ws_space c s Hc) as E. unfold split_ws in E.
-  simpl toks in *. destruct (toks s) as [u us]. rewrite Hc in *. simpl fst; simpl snd.
-  rewrite sapp_nil_r. destruct t; [discriminate|]. simpl is_empty. simpl in E. rewrite E. reflexivity.
+  unfold split_ws. rewrite (toks_tok_app t _ Hns).
+  simpl toks. destruct (toks s) as [u us]. rewrite Hc. simpl fst; simpl snd.
+  rewrite sapp_nil_r. destruct t; [discriminate|]. reflexivity.
 Qed.
 
 Lemma split_ws_tok_end : forall t, tok_ok t = true -> split_ws t = [t].
@@ -189,7 +188,8 @@ Proof.
   - simpl. apply split_ws_space. exact Hc.
   - inversion H as [|? ? Ht Hts]; subst. destruct ts as [|u r].
     + simpl. apply split_ws_tok; assumption.
-    + rewrite join_cons2. rewrite !sapp_assoc. simpl ((" " ++ _)).
+    + rewrite join_cons2. set (J := join " " (u :: r)) in *. rewrite !sapp_assoc.
+      change (" " ++ J ++ String c s) with (String SP (J ++ String c s)).
       rewrite split_ws_tok by (assumption || reflexivity).
       rewrite (IH c s Hts Hc). reflexivity.
 Qed.
@@ -214,23 +214,26 @@ Qed.
 
 Definition quoted (l : string) : string := " """ ++ l ++ """".
 
+Lemma quoted_eq : forall pre l rest,
+  pre ++ (quoted l ++ rest) = (pre ++ " ") ++ String QU (l ++ String QU rest).
+Proof. intros. unfold quoted. rewrite !sapp_assoc. reflexivity. Qed.
+
 (** line.split(QU)[1::2] on  <pre> "l1" "l2" ... "ln"<eol>  *)
 Lemma odds_split_labels : forall ls pre eol, noc QU pre = true -> noc QU eol = true ->
   Forall (fun l => noc QU l = true) ls ->
   odds (split_on QU (pre ++ sconcat (map quoted ls) ++ eol)) = ls.
 Proof.
   induction ls as [|l ls IH]; intros pre eol Hp He H.
-  - simpl sconcat. simpl append. rewrite split_on_noc_end; [reflexivity|].
+  - cbn [map sconcat]. change ("" ++ eol) with eol. rewrite split_on_noc_end; [reflexivity|].
     unfold noc in *. rewrite sall_app, Hp, He. reflexivity.
   - inversion H as [|? ? Hl Hls]; subst.
-    simpl map. simpl sconcat. unfold quoted at 1.
-    replace (pre ++ ((" """ ++ l ++ """") ++ sconcat (map quoted ls)) ++ eol)
-      with ((pre ++ " ") ++ String QU (l ++ String QU ("" ++ sconcat (map quoted ls) ++ eol))).
-    2:{ rewrite !sapp_assoc. simpl. reflexivity. }
+    cbn [map sconcat]. rewrite (sapp_assoc (quoted l)). rewrite quoted_eq.
     rewrite split_on_noc.
     2:{ unfold noc in *. rewrite sall_app, Hp. reflexivity. }
     rewrite split_on_noc by exact Hl.
-    simpl odds. f_equal. apply IH; [reflexivity|exact He|exact Hls].
+    cbn [odds]. f_equal.
+    change (sconcat (map quoted ls) ++ eol) with ("" ++ sconcat (map quoted ls) ++ eol).
+    apply IH; [reflexivity|exact He|exact Hls].
 Qed.
 
 (* ------------------------------------------------------------------------------------------- *)
@@ -342,7 +345,7 @@ Lemma shape_text_sall : forall f, (forall c, is_digit c = true -> f c = true) ->
   forall sh, sall f (shape_text sh) = true.
 Proof.
   intros f Hd Hs sh. unfold shape_text. apply sall_sconcat. apply Forall_forall. intros x Hx.
-  apply in_map_iff in Hx as [n [<- _]]. rewrite sall_app. simpl. rewrite Hs.
+  apply in_map_iff in Hx as [n [<- _]]. rewrite sall_app. unfold SP in Hs. cbn [sall]. rewrite Hs.
   rewrite (sall_impl _ _ Hd _ (print_nat_digits n)). reflexivity.
 Qed.
 
